@@ -91,7 +91,8 @@ AcceptKey(e) ==
 MaxUri == 65534
 AcceptFoldSize(e) ==
     IF e.fold /\ Len(e.path) + 1 + 2 + e.n > MaxUri
-    THEN e.res = "err" /\ e.kind \in AllKinds /\ Status(e.kind) = 400 /\ e.status = 400 /\ e.code = Code(e.kind)
+    THEN e.res = "err" /\ e.kind \in AllKinds \ {"MissingAuthenticationToken", "IncompleteSignature"}
+         /\ Status(e.kind) = 400 /\ e.status = 400 /\ e.code = Code(e.kind)
     ELSE IsErr(e, "MissingAuthenticationToken", 400)
 
 \* C13: kind -> code / status, for every variant and every conversion into SignatureError
